@@ -48,6 +48,12 @@
     / `clone` / `sameAs` in YtkProps/C05.lean; `Child`, `Lookup` called through the `dom.Container` interface stay the
     primitives `GoDom.child` / `GoDom.lookup` below — the translated `(*containerImpl).Child` / `Lookup` are proved
     equal to them in YtkProps/C02.lean.
+  * TRUSTED primitives added with the second extension (each a one-liner below): `mkLeaf`, `ensureChildren`,
+    `asContainer?`, `asLeaf?`, `LeafMap` / `newLeafMap` / `leafMapSet`, `ContMap` / `contMapGet`, `setItemAt`,
+    `makePlainList` / `plainListSet` / `newPlainMap` / `plainMapSet`, `splitOnChar` / `stringsSplit1`,
+    `stringsContains`, `hasSuffix`, `anyString?`, `reIdxSuffix` / `reIdxSuffixFind` (over the model's `stripIdx`).
+    No longer only trusted: `append`, `set`, `remove` (= `listAppend`, `listSet`, `remove`) are proved equal to the
+    translation of `ListBuilder.Append` / `Set` and `ContainerBuilder.Remove` in YtkProps/C03.lean.
   * `uint(i)` ↦ `i.toNat` and `int(math.Max(float64(a), float64(b)))` ↦ `max a b`: exact for
     0 ≤ i < 2^53 (GoPrelude: `int` is unbounded, wrap-around and float rounding are not modelled).
 -/
